@@ -302,6 +302,22 @@ def r6(ctx):
             ok_red = kwarg(prior[-1].value, "reduced") is not None and is_const(kwarg(prior[-1].value, "reduced"), True) if isinstance(prior[-1].value, ast.Call) else False
             ctx.check(ok_red, "C03.R6", "the reduced copy is marked reduced (so that the reduced name format is used)", f.module.line(prior[-1]),
                       ctx.construct(f, text="reduced=True"), "FactorValues(..., reduced=True) expected for the reduced copy")
+    # the encoding cache is keyed by (expr, reduced_rank) unless the FACTOR ITSELF declares that its reduced form is "full minus one field"
+    ck = [st for st in walk_no_nested(f.node) if isinstance(st, (ast.Assign, ast.AnnAssign)) and norm(st.targets[0] if isinstance(st, ast.Assign) else st.target) == "cache_key"]
+    ctx.floor("C03.R6", len(ck), 1, "encoding cache key definitions")
+    for st in ck:
+        ctx.look()
+        v = st.value
+        ok = isinstance(v, ast.IfExp) and norm(v.body) == "factor.expr" and isinstance(v.orelse, ast.Tuple) and [norm(e) for e in v.orelse.elts] == ["factor.expr", "reduced_rank"]
+        drops = [a for a in ast.walk(v.test) if isinstance(a, ast.Attribute) and a.attr == "drop_field"] if isinstance(v, ast.IfExp) else []
+        ok_src = bool(drops) and all(norm(a.value) == "factor.metadata" for a in drops)
+        ctx.check(ok and ok_src, "C03.R6", "a full-rank encoding is shared with reduced-rank requests only when the factor's own metadata declares a drop field",
+                  f.module.line(st), ctx.construct(f, text="cache key"),
+                  f"cache_key = `{norm(v)[:140]}`: keying on the *encoded* value's metadata (or dropping reduced_rank) lets a full-rank contrast coding be reused for a "
+                  f"reduced-rank request of a factor with its own encoder (e.g. C(g, contr.sum))")
+    t = norm(f.node)
+    ok = t.find("if factor.expr in self.encoded_cache:") < t.find("elif (factor.expr, reduced_rank) in self.encoded_cache:") and "self.encoded_cache[cache_key] = encoded" in t
+    ctx.check(ok, "C03.R6", "the cache is consulted with the same two key shapes it is filled with", f.where, ctx.construct(f, text="cache lookup"), "cache lookup / store key shapes changed")
     # the builder passes the scoped factor's own reduced flag
     b = P.func(f"{MAT}._build_model_matrix")
     calls = [c for c in ast.walk(b.node) if isinstance(c, ast.Call) and isinstance(c.func, ast.Attribute) and c.func.attr == "_encode_evaled_factor"]
